@@ -1105,6 +1105,43 @@ def k_shared(ctx):
     c02.e(ctx)
 
 
+@R.clause("C09.l", "only an unknown path is answered 4.04: the KeyError handler around the child lookup covers the lookup alone, not the handler's own rendering (shared with C17.c)")
+def l_shared(ctx):
+    """An independently written breaking change moved `return await child.render_to_pipe(request)` into the try block
+    whose `except KeyError` raises NotFound: a KeyError raised by application code below a Site was answered 4.04
+    instead of the bare 5.00.  The obligations are those of C17.c."""
+    from . import c17
+    c17.c(ctx)
+
+
+@R.clause("C09.m", "No-Response suppresses exactly the response's own class: the mask is bit (class - 1) (RFC 7967)")
+def m_mask(ctx):
+    """'Exactly one final response ... unless No-Response ... suppress it'.  An independently written breaking change
+    re-parenthesised the mask to (1 << class) - 1, so a No-Response value aimed at 2.xx also swallowed 4.xx/5.xx."""
+    fi = ctx.prog.func("messagemanager.MessageManager.send_message")
+    m = params(fi)[0]
+    found = []
+    for n in walk_no_nested(fi.node):
+        if isinstance(n, ast.BinOp) and isinstance(n.op, ast.BitAnd):
+            sides = [n.left, n.right]
+            if any("no_response" in ast.unparse(s_) for s_ in sides):
+                mask = [s_ for s_ in sides if "no_response" not in ast.unparse(s_)]
+                if mask:
+                    found.append((n, mask[0]))
+    ctx.ob("send_message applies a No-Response mask", len(found) == 1, fi, found[0][0] if found else fi.node, construct="send_message: No-Response mask")
+    for n, mask in found:
+        N = Normalizer(env=norm.local_env(fi.node))
+        try:
+            got = N.poly(mask)
+            want = Normalizer().poly(ast.parse("2**(%s.code.class_ - 1)" % m, mode="eval").body)
+            ok = got == want
+        except NormError:
+            ok, got = False, None
+        ctx.ob("the mask is exactly 1 << (class - 1): 2 for 2.xx, 8 for 4.xx, 16 for 5.xx", ok, fi, n, detail="normal form %r" % (got,))
+    from ..absdom import code_predicates
+    ctx.ob("Code.class_ is the code's upper three bits", code_predicates(ctx.prog)["class_shift"] == 5, None, None, construct="Code.class_")
+
+
 F_PIPE = "aiocoap/pipe.py"
 F_PROTO = "aiocoap/protocol.py"
 F_RES = "aiocoap/resource.py"
@@ -1169,3 +1206,6 @@ R.seed("C09.j", F_ERR, "class HopLimitReached(ConstructionRenderableError):\n   
 R.seed("C09.j", F_CODES, "    HOP_LIMIT_REACHED = (5 << 5) + 8\n", "    HOP_LIMIT_REACHED = (5 << 5) + 7\n")
 
 R.seed("C09.k", "aiocoap/tokenmanager.py", "        for (_, _r), (_, stopper) in self.incoming_requests.items():\n            if remote == _r:\n                stoppers.append(stopper)", "        stoppers.extend(stopper for (_, stopper) in self.incoming_requests.values())", "an error for one peer cancels every peer's handlers")
+
+R.seed("C09.l", F_RES, "        except KeyError:\n            raise error.NotFound()\n        else:\n            # FIXME consider carefully whether this switching-around is good.\n            # It probably is.\n            request.request = subrequest\n            return await child.render_to_pipe(request)", "            request.request = subrequest\n            return await child.render_to_pipe(request)\n        except KeyError:\n            raise error.NotFound()", "a KeyError raised by a handler is answered 4.04")
+R.seed("C09.m", "aiocoap/messagemanager.py", "                1 << message.code.class_ - 1\n", "                (1 << message.code.class_) - 1\n", "No-Response=2 also suppresses 4.xx and 5.xx")
